@@ -51,7 +51,7 @@ pub fn determinism(seed: u64, verif_dir: &str) -> i32 {
     }
     let mut grng = rng.fork(2);
     for i in 0..150 {
-        programs.push(Program { files: gen::generate(&mut grng, &fenced), annotate: i % 2 == 0, features: vec![], label: format!("g{i}") });
+        programs.push(Program { files: gen::generate(&mut grng, &fenced), annotate: i % 2 == 0, features: vec![], label: format!("g{i}"), path_mode: String::new() });
     }
     let configs = vec![12usize; programs.len()];
     let mut scenarios = c12::build_scenarios(seed, &programs, &configs, &mut rng.fork(3));
